@@ -67,7 +67,7 @@ def atom_str(a: Atom) -> str:
     return str(k)
 
 
-IDEM_FNS = {"lt", "eq", "isnan", "and", "or", "not", "pred"}
+IDEM_FNS = {"lt", "eq", "isnan", "isinf", "and", "or", "not", "pred"}
 
 
 def _frac(c):
@@ -526,6 +526,14 @@ def b_isnan(p):
     return fn("isnan", p)
 
 
+def b_isinf(p):
+    """p is +inf or -inf (the value is a float that is neither a real number nor NaN)"""
+    p = as_poly(p)
+    if p.is_const():
+        return ZERO
+    return fn("isinf", p)
+
+
 def b_not(b):
     return ONE - b
 
@@ -601,6 +609,8 @@ def _eval_atom(a, val, cache):
         return 1.0 if args[0] == 0 else 0.0
     if op == "isnan":
         return 1.0 if math.isnan(args[0]) else 0.0
+    if op == "isinf":
+        return 1.0 if math.isinf(args[0]) else 0.0
     if op == "pow":
         return args[0] ** args[1]
     if op in ("sin", "cos", "tanh", "tan"):
@@ -656,6 +666,8 @@ def rebuild_fn(op, args):
         return b_eq(args[0], ZERO)
     if op == "isnan":
         return b_isnan(args[0])
+    if op == "isinf":
+        return b_isinf(args[0])
     if op in ("abs", "sign", "exp", "log"):
         return unary(op, args[0])
     return fn(op, *args)
@@ -706,7 +718,7 @@ def diff(p: Poly, s) -> Poly:
                 r = da * Poly.of_atom(a)
             elif op == "abs":
                 r = da * unary("sign", args[0])
-            elif op in ("lt", "eq", "isnan", "sign"):
+            elif op in ("lt", "eq", "isnan", "isinf", "sign"):
                 r = ZERO
             else:
                 raise NotImplementedError(f"derivative of fn atom {op}")
